@@ -390,3 +390,56 @@ func VerifC13_PartitionOvertakesCollection() {
 	vAssert(n >= 1, "C13.partition-whose-notification-overtakes-its-collection-is-not-lost")
 	vReach("end")
 }
+
+// VerifC13_SecondTaskHandOff: two tasks of one target share one EtcdOp (one watch, one
+// start-watch gate - already open when the second task starts). Task A is running; while
+// task B goes through its start sequence a collection or a non-default partition that only B
+// selects is created at any of the five steps. B must start it (and A must not).
+func VerifC13_SecondTaskHandOff() {
+	etcd := &c13Etcd{data: map[string][]byte{}}
+	etcd.putDB(1, "default")
+	etcd.putDB(2, "sales")
+	etcd.putCollection(1, 10, "a", pb.CollectionState_CollectionCreated, 1000)
+	etcd.putCollection(2, 40, "s", pb.CollectionState_CollectionCreated, 1500)
+	etcd.putPartition(40, 400, "_default", pb.PartitionState_PartitionCreated)
+	op := c13NewEtcdOp(etcd)
+	mgrA, mgrB := &c13Mgr{}, &c13Mgr{}
+	selA := func(db *model.DatabaseInfo, c *pb.CollectionInfo) (bool, bool) { return false, db.Name == "default" }
+	selB := func(db *model.DatabaseInfo, c *pb.CollectionInfo) (bool, bool) { return false, db.Name == "sales" }
+	rdA, _ := NewCollectionReader("task-a", mgrA, op, nil, nil, selA, c13ReaderCfg())
+	rdB, _ := NewCollectionReader("task-b", mgrB, op, nil, nil, selB, c13ReaderCfg())
+	c13Write = nil
+	rdA.StartRead(context.Background())
+	vQuiesce()
+	lateKind := vChoice("late", 2)
+	c13At, c13Done = vChoice("writeStep", c13Steps), false
+	c13Write = func() {
+		if lateKind == 0 {
+			etcd.putCollection(2, 50, "t", pb.CollectionState_CollectionCreating, 2000)
+			etcd.putCollection(2, 50, "t", pb.CollectionState_CollectionCreated, 2000)
+		} else {
+			etcd.putPartition(40, 402, "p2", pb.PartitionState_PartitionCreating)
+			etcd.putPartition(40, 402, "p2", pb.PartitionState_PartitionCreated)
+		}
+	}
+	c13Inject(c13BeforeStart)
+	rdB.StartRead(context.Background())
+	c13Inject(c13AfterStartWatch)
+	vQuiesce()
+	vQuiesce()
+	c13Write = nil
+	vAssert(c13Count(mgrA.started, 10) >= 1 && c13Count(mgrB.started, 40) >= 1, "C13.existing-collection-is-started")
+	vAssert(c13Count(mgrA.started, 40) == 0 && c13Count(mgrA.started, 50) == 0 && c13Count(mgrB.started, 10) == 0, "C13.a-task-starts-only-what-it-selects")
+	if lateKind == 0 {
+		vAssert(c13Count(mgrB.started, 50) >= 1, "C13.collection-created-while-a-second-task-starts-is-not-missed")
+	} else {
+		n := 0
+		for _, p := range mgrB.partitions {
+			if p == [2]int64{40, 402} {
+				n++
+			}
+		}
+		vAssert(n >= 1, "C13.partition-created-while-a-second-task-starts-is-not-missed")
+	}
+	vReach("end")
+}
